@@ -163,8 +163,9 @@ def symbolic_constants_in_arithmetic(stms, consts=()):
 
 
 def antimonotone_domain_sigs(stms, prefix):
-    """signatures named <prefix>* that occur under `not`, or in the condition of a conditional literal, in the body of
-    a rule whose head predicate is named <prefix>*"""
+    """signatures that occur under `not`, or in the condition of a conditional literal, in the body of a rule whose head
+    predicate is named <prefix>* (after `unused` the substituted domain predicate may have been replaced by the predicate
+    that defines it, so the name of the body predicate is not restricted)"""
     out = set()
     for s in stms:
         if s.ast_type != ASTType.Rule or s.head.ast_type != ASTType.Literal or s.head.atom.ast_type != ASTType.SymbolicAtom:
@@ -176,10 +177,10 @@ def antimonotone_domain_sigs(stms, prefix):
             continue
         for b in s.body:
             if b.ast_type == ASTType.Literal and b.sign == Sign.Negation:
-                out |= {g for g in all_sigs(b) if g[0].startswith(prefix)}
+                out |= all_sigs(b)
             elif b.ast_type == ASTType.ConditionalLiteral:
                 for c in b.condition:
-                    out |= {g for g in all_sigs(c) if g[0].startswith(prefix)}
+                    out |= all_sigs(c)
                 if b.literal.sign == Sign.Negation:
-                    out |= {g for g in all_sigs(b.literal) if g[0].startswith(prefix)}
+                    out |= all_sigs(b.literal)
     return out
